@@ -112,6 +112,7 @@ type sScript struct {
 	Kind  string   `json:"kind"`
 	Nodes []string `json:"nodes"` // ids to dump besides the root
 	Ops   []sOp    `json:"ops"`
+	Kinds map[string]int `json:"kinds,omitempty"` // what the generator meant each request to be (input distribution only)
 	// observations
 	Root0   string  `json:"root0"`
 	Init    []sView `json:"init"`
